@@ -1946,6 +1946,29 @@ func runR74(c *Ctx) {
 				return ""
 			}
 		case *ssa.MakeSlice:
+			// a copy of the declared values: make([]string, len(p)) filled by copy(new, p) and nothing else
+			if lc, ok := t.Len.(*ssa.Call); ok && builtinName(lc) == "len" {
+				if _, isParam := rootValue(lc.Call.Args[0]).(*ssa.Parameter); isParam {
+					copied, other := false, false
+					for _, r := range *t.Referrers() {
+						switch u := r.(type) {
+						case *ssa.Call:
+							if builtinName(u) == "copy" && u.Call.Args[0] == ssa.Value(t) && sameValue2(u.Call.Args[1], lc.Call.Args[0], 0) {
+								copied = true
+							}
+						case *ssa.IndexAddr:
+							for _, r2 := range *u.Referrers() {
+								if _, isSt := r2.(*ssa.Store); isSt {
+									other = true
+								}
+							}
+						}
+					}
+					if copied && !other {
+						return ""
+					}
+				}
+			}
 			// only acceptable when nothing is stored into it by index (it is then empty or zero-length)
 			for _, r := range *t.Referrers() {
 				if ia, ok := r.(*ssa.IndexAddr); ok {
